@@ -64,6 +64,33 @@ impl StorageEngine {
 //@@ body
 //@@ end
 
+// ---- sorted-set reads (ZSCORE / ZCARD): through the lazy purge (C02), another type refuses, a missing key answers nil / 0, nothing is written;
+// what the skip list answers is its own business (interior state, see the header of prelude/zset_stream_stubs.rs)
+//@@ unit zscore fn src/storage/engine.rs StorageEngine::zscore
+//@@   params drop "db: DatabaseIndex" add "shard_guard: &mut DatabaseShard"
+//@@   rewrite R2
+    fn zscore(&self, shard_guard: &mut DatabaseShard, key: &[u8], member: &[u8]) -> (r: Result<Option<f64>>)
+        ensures
+            unchanged(eff(*old(shard_guard), key_of(key@)), sv(*final(shard_guard))),
+            holds_non_zset(eff(*old(shard_guard), key_of(key@)), key_of(key@)) ==> r is Err,
+            !eff(*old(shard_guard), key_of(key@)).data.contains_key(key_of(key@)) ==> r matches Ok(None),
+            eff(*old(shard_guard), key_of(key@)).data.contains_key(key_of(key@)) && !holds_non_zset(eff(*old(shard_guard), key_of(key@)), key_of(key@)) ==> r is Ok,
+            // C04: a score handed out is a number
+            r matches Ok(Some(s)) ==> !f64_is_nan(s),
+//@@ body
+//@@ end
+//@@ unit zcard fn src/storage/engine.rs StorageEngine::zcard
+//@@   params drop "db: DatabaseIndex" add "shard_guard: &mut DatabaseShard"
+//@@   rewrite R2
+    fn zcard(&self, shard_guard: &mut DatabaseShard, key: &[u8]) -> (r: Result<usize>)
+        ensures
+            unchanged(eff(*old(shard_guard), key_of(key@)), sv(*final(shard_guard))),
+            holds_non_zset(eff(*old(shard_guard), key_of(key@)), key_of(key@)) ==> r is Err,
+            !eff(*old(shard_guard), key_of(key@)).data.contains_key(key_of(key@)) ==> r == Ok::<usize, FerrousError>(0),
+            eff(*old(shard_guard), key_of(key@)).data.contains_key(key_of(key@)) && !holds_non_zset(eff(*old(shard_guard), key_of(key@)), key_of(key@)) ==> r is Ok,
+//@@ body
+//@@ end
+
 // ---- stream reads (C15: XRANGE / XREVRANGE / XLEN): the engine hands bounds, count and DIRECTION to the stream object unchanged, answers
 // from the stream stored under the key (after the lazy purge), refuses another type, and writes nothing
 //@@ unit xrange fn src/storage/engine.rs StorageEngine::xrange
